@@ -24,10 +24,10 @@ Inductive gate := GObj | GSync | GRefused.
 
 Record par_case := {
   q_signs : list bool;
-  q_outs : list (nat * nat * outcome float);
+  q_outs : list (nat * nat * outcome num);
   q_cons : list (fvec * fvec);
   q_tape : list (nat * nat * fvec);
-  q_heap : list (ind float);
+  q_heap : list (ind num);
   q_batch : list nat;
   q_trace : list (nat * nat * gate) }.
 
@@ -38,11 +38,11 @@ Definition key_lookup {A : Type} (tbl : list (nat * nat * A)) (id att : nat) : o
   end.
 
 (* the scripted world: outcome and replacement depend on (design, attempt) only *)
-Definition par_env (c : par_case) : env float :=
+Definition par_env (c : par_case) : env num :=
   {| e_signs := q_signs c;
      e_obj := fun cl => match key_lookup (q_outs c) (c_id cl) (c_att cl) with Some o => o | None => Fatal 999 end;
-     e_cons := fun v => match cons_lookup (q_cons c) v with Some g => g | None => [nan] end;
-     e_reroll := fun cl => match key_lookup (q_tape c) (c_id cl) (c_att cl) with Some v => v | None => [nan] end |}.
+     e_cons := fun v => match cons_lookup (q_cons c) v with Some g => g | None => [F nan] end;
+     e_reroll := fun cl => match key_lookup (q_tape c) (c_id cl) (c_att cl) with Some v => v | None => [F nan] end |}.
 
 Definition observable (s : step) : option gate :=
   match st_kind s with KObj => Some GObj | KSync => Some GSync | _ => None end.
@@ -102,22 +102,22 @@ Fixpoint expand (rem : list (nat * list step)) (tr : list (nat * nat * gate)) (a
       end
   end.
 
-Definition init_of (c : par_case) : state float :=
+Definition init_of (c : par_case) : state num :=
   {| s_heap := q_heap c; s_pop := []; s_failed := []; s_store := []; s_calls := [] |}.
 
-Definition rows_of (n : nat) (log : list (nat * ind float)) : list (option (ind float)) :=
+Definition rows_of (n : nat) (log : list (nat * ind num)) : list (option (ind num)) :=
   map (fun id => row_of id log) (seq 0 n).
-Definition nrows (n : nat) (log : list (nat * ind float)) : nat :=
+Definition nrows (n : nat) (log : list (nat * ind num)) : nat :=
   length (filter (fun r => match r with Some _ => true | None => false end) (rows_of n log)).
 
 Definition scall : Type := (nat * nat * fvec)%type.
-Definition strip_f (c : call float) : scall := (c_id c, c_att c, c_vec c).
+Definition strip_f (c : call num) : scall := (c_id c, c_att c, c_vec c).
 
 (* designs, problem.failed, store rows by id, number of rows, objective calls *)
 Definition side_obs : Type :=
-  (list (ind float) * list (ind float) * list (option (ind float)) * nat * list scall)%type.
+  (list (ind num) * list (ind num) * list (option (ind num)) * nat * list scall)%type.
 
-Definition side_of (st : state float) : side_obs :=
+Definition side_of (st : state num) : side_obs :=
   (s_heap st, s_failed st, rows_of (length (s_heap st)) (s_store st),
    nrows (length (s_heap st)) (s_store st), map strip_f (s_calls st)).
 
@@ -154,8 +154,8 @@ Definition par_run (c : par_case) : par_obs :=
   let tasks := map (fun id => (id, task_steps e (q_heap c) id)) (q_batch c) in
   let '(ok, full, rem) := expand tasks (q_trace c) [] in
   let complete := forallb (fun p => match snd p with [] => true | _ => false end) rem in
-  let ps := run fltb 0%float froundp fsmul e full (lift (init_of c)) in
-  let '(sst, r) := evaluate_serial fltb 0%float froundp fsmul e (init_of c) (q_batch c) in
+  let ps := run nltb nzero nroundp nsmul e full (lift (init_of c)) in
+  let '(sst, r) := evaluate_serial nltb nzero nroundp nsmul e (init_of c) (q_batch c) in
   let po := side_of (p_st ps) in
   let so := side_of sst in
   (ok && complete, po, r, so, side_eqb false po so).
